@@ -638,7 +638,7 @@ class XMLParserMixin(
                     output = re.sub("&([A-Za-z0-9_]+);", r"&\g<1>", output)
                     if self.isentrylink or not self.entries[-1].get(element):
                         self.entries[-1][element] = output
-                    if output:
+                    if output and self.entries[-1].get("links"):
                         self.entries[-1]["links"][-1]["href"] = output
             else:
                 if element == "description":
@@ -664,7 +664,8 @@ class XMLParserMixin(
                 # fix query variables; see above for the explanation
                 output = re.sub("&([A-Za-z0-9_]+);", r"&\g<1>", output)
                 context[element] = output
-                context["links"][-1]["href"] = output
+                if context.get("links"):
+                    context["links"][-1]["href"] = output
             elif self.incontent:
                 contentparams = copy.deepcopy(self.contentparams)
                 contentparams["value"] = output
